@@ -108,7 +108,9 @@ theorem frame_writeRecvAck (s : St) (p : Packet) (b : Bool) : DFrame s (writeRec
   unfold writeRecvAck
   split
   · exact DFrame.refl s
-  · exact frame_writeAck _ _ _ _
+  · split
+    · exact DFrame.refl s
+    · exact frame_writeAck _ _ _ _
 
 theorem frame_refundRelease (s : St) (p : Packet) : DFrame s (refundRelease s p).1 := by
   unfold refundRelease
@@ -167,5 +169,29 @@ theorem frame_msgGrant {s s' : St} {g} (h : msgGrant s g = .ok s') : DFrame s s'
     · split at h
       · cases h
       · cases h; exact frame_setGrant s g
+
+-- the channel-state guards of ibc-go core in front of the callbacks ------------------------------
+
+theorem recvPacket_cases (s : St) (c seq ph : Nat) (d : RecvData) :
+    recvPacket s c seq ph d = (s, .closed) ∨ recvPacket s c seq ph d = recvOpen s c seq ph d := by
+  unfold recvPacket; split
+  · exact Or.inl rfl
+  · exact Or.inr rfl
+
+theorem ackPacket_ok {s : St} {c seq ph : Nat} {t e : Bool} {r : Option St} (h : ackPacket s c seq ph t e = .ok r) :
+    ackOpen s c seq ph t e = .ok r := by
+  unfold ackPacket at h; split at h
+  · cases h
+  · exact h
+
+theorem sendTransfer_ok {s s' : St} {a c d amt} (h : sendTransfer s a c d amt = .ok s') : sendOpen s a c d amt = .ok s' := by
+  unfold sendTransfer at h; split at h
+  · cases h
+  · exact h
+
+theorem frame_setChanClosed {s s' : St} {c : Nat} {b : Bool} (h : setChanClosed s c b = .ok s') : DFrame s s' := by
+  unfold setChanClosed at h; split at h
+  · cases h
+  · cases h; exact ⟨rfl, rfl, rfl, rfl, rfl, rfl, rfl, rfl, rfl⟩
 
 end DymVerif.Packets
